@@ -13,6 +13,7 @@
      - lower_function saving / restoring everything except loop_stack.
    The code is modelled as it is, including the behaviours that break the property. *)
 From Coq Require Import NArith Bool List.
+From Aelys Require Import Extracted.LowerFlags.
 Import ListNotations.
 Local Open Scope N_scope.
 
@@ -119,6 +120,15 @@ Definition add_name (x : N) (s : st) : st :=
 
 Definition memN (x : N) (l : list N) : bool := existsb (N.eqb x) l.
 
+(* locals_by_name.truncate(len): keep the [n] OLDEST entries (the list is newest first) *)
+Definition keep_oldest {A} (n : nat) (l : list A) : list A := skipn (length l - n) l.
+Definition restore_names (n : nat) (s : st) : st :=
+  mk (next s) (blocks s) (dirty s) (pending s) (aliases s) (loops s) (keep_oldest n (names s)) (out s).
+(* end of a block statement / of a for or for-each loop: the names declared inside go out of scope
+   (whether the code does that is read from the source: Extracted.LowerFlags) *)
+Definition scope_block (n : nat) (s : st) : st := if BLOCK_SCOPES_NAMES then restore_names n s else s.
+Definition scope_loop (n : nat) (s : st) : st := if LOOP_SCOPES_NAMES then restore_names n s else s.
+
 Definition push_loop (h e : N) (s : st) : st :=
   mk (next s) (blocks s) (dirty s) (pending s) (aliases s) ((h, e) :: loops s) (names s) (out s).
 Definition pop_loop (s : st) : st :=
@@ -190,7 +200,7 @@ with lower_stmt (x : sstmt) (s : st) : st :=
   match x with
   | SExpr e => lower_expr e s
   | SLet n e => emit (lower_expr e (add_name n s))
-  | SBlock b => lower_stmts b s
+  | SBlock b => scope_block (length (names s)) (lower_stmts b s)
   | SIf c t =>
       let s1 := lower_expr c s in
       let '(th, s2) := alloc s1 in
@@ -229,7 +239,7 @@ with lower_stmt (x : sstmt) (s : st) : st :=
       let s9 := lower_stmt b (push_loop inc ex s8) in
       let s10 := pop_loop (fixup bd (seal_unless_terminated (TGoto inc) s9)) in
       let s11 := emit (lower_expr step s10) in
-      noop ex (fixup inc (seal (TGoto hd) s11))
+      scope_loop (length (names s)) (noop ex (fixup inc (seal (TGoto hd) s11)))
   | SForEach n it b =>
       let s1 := add_name n (emit (lower_expr it s)) in
       let '(hd, s3) := alloc s1 in
@@ -240,7 +250,7 @@ with lower_stmt (x : sstmt) (s : st) : st :=
       let s8 := emit (fixup hd (seal (TBr bd ex) (emit s7))) in
       let s9 := lower_stmt b (push_loop inc ex s8) in
       let s10 := pop_loop (fixup bd (seal_unless_terminated (TGoto inc) s9)) in
-      noop ex (fixup inc (seal (TGoto hd) (emit s10)))
+      scope_loop (length (names s)) (noop ex (fixup inc (seal (TGoto hd) (emit s10))))
   | SRet => seal TRet s
   | SRetE e => seal TRet (lower_expr e s)
   | SBreak => match loops s with (_, ex) :: _ => seal (TGoto ex) s | [] => s end
